@@ -55,6 +55,7 @@ def run_failing(
     queue_wait: float = 0.0,
     busy_block: float = 0.0,
     wait_on_attempt: int | None = None,
+    lag: float = 0.0,
 ) -> RetryObs:
     """``exc_for_attempt(i)`` (i = 0,1,..) gives the exception attempt i raises, or None to succeed."""
     obs = RetryObs()
@@ -62,6 +63,7 @@ def run_failing(
     loop = VLoop(base_wall=clock[0], base_mono=clock[1])
     cfg = RunConfig(max_actions=max_actions)
     with EngineExec(ex, cfg, loop=loop) as e:
+        e.h.lag_before_failed_result = lag
         counter = {"n": 0}
         from vmc.events import Work
 
